@@ -323,7 +323,7 @@ def gen_unit(rng, stream="main"):
     cases = []
     for _ in range(rng.randint(4, 7)):
         kind = rng.choice(["bytes", "bytesio", "simbytes_seek", "simbytes_seek", "simbytes_noseek", "simbytes_noseek",
-                           "simbytes_seekraises", "http_plain", "http_chunked"])
+                           "simbytes_seekraises", "http_plain", "http_chunked", "http_addinfourl"])
         case = dict(doc)
         case["kind"] = kind
         case["chunk"] = rng.choice([10240, 10240, 10240, 1, 2, 3, 5, 16, 64, 1000, 1024, 1025])
@@ -450,7 +450,7 @@ def execute(case):
     if log.short_reads:
         f["short_read"] = log.short_reads
     kind = case["kind"]
-    if kind in ("simbytes_noseek", "http_plain", "http_chunked"):
+    if kind in ("simbytes_noseek", "http_plain", "http_chunked", "http_addinfourl"):
         f["no_seek"] = 1
     if kind == "simbytes_seekraises":
         f["seek_raises"] = 1
@@ -593,7 +593,7 @@ def shrinks(case):
         yield dict(case, src=dict(src, rest=1 << 30))
     if case["chunk"] != 10240:
         yield dict(case, chunk=10240)
-    simpler = {"http_chunked": "simbytes_noseek", "http_plain": "simbytes_noseek", "simbytes_seekraises": "simbytes_noseek",
+    simpler = {"http_addinfourl": "http_plain", "http_chunked": "simbytes_noseek", "http_plain": "simbytes_noseek", "simbytes_seekraises": "simbytes_noseek",
                "simbytes_noseek": "simbytes_seek", "simbytes_seek": "bytesio", "bytesio": "bytes"}
     if case["kind"] in simpler:
         yield dict(case, kind=simpler[case["kind"]])
